@@ -102,7 +102,13 @@ NoSnap == [present |-> FALSE, w |-> 0, next |-> 0, c |-> {}]
 ZeroRf == [w |-> 0, next |-> 0, c |-> {}]
 
 Window(n) == IF n < Boundary THEN 0 ELSE 1
-WinFrom(w) == IF w = 0 THEN 0 ELSE Boundary
+(* the lowest block number that exists.  With Genesis, number 0 is the genesis block.  Without,
+   number 0 sits on a base chain (real blocks 0 .. 8192 - Boundary - 1): window 0 extends below 0,
+   and the cursor of the running filter can be driven below 0 by reverts whose commit fails
+   (FixMemAfterCommit = FALSE: every failed RevertHead moves `next` one block down, at most MaxOps
+   times) - onReorg does not fail there as it does at the genesis block. *)
+Low == IF Genesis THEN 0 ELSE 0 - (MaxOps + 2)
+WinFrom(w) == IF w = 0 THEN Low ELSE Boundary
 WinTo(w) == IF w = 0 THEN Boundary - 1 ELSE MaxH + 100
 
 Families == {"hdr", "com", "su", "txs", "h2n", "txl", "hist"}
@@ -139,7 +145,7 @@ RfInsert(rf, id) ==
    persisted window (which one is the FixReorgWindow switch); memory is mutated as the code does,
    including on the late error path (next is assigned before clear() can fail). *)
 RfReorg(d, rf) ==
-  IF rf.next = 0 THEN [ok |-> FALSE, rf |-> rf, crossed |-> FALSE]
+  IF rf.next = Low THEN [ok |-> FALSE, rf |-> rf, crossed |-> FALSE]   \* (only the genesis block: next - 1 underflows)
   ELSE LET cur == rf.next - 1 IN
        IF rf.w = 1 /\ cur = Boundary - 1
        THEN IF ~d.win.present THEN [ok |-> FALSE, rf |-> rf, crossed |-> FALSE]
